@@ -478,6 +478,8 @@ SWEEP = ["concurrent/test_vector.cpp",
 
 # name anchors (validated by tools/rename_sweep.py; a vanished name is exit 2, see core.check_anchor_names)
 ANCHORS = {
+    '_block_table': ['^babylon::ConcurrentVector(<|$)'],
+    '_constructor': ['^babylon::ConcurrentVector(<|$)'],
     'create_block': ['^babylon::ConcurrentVector(<|$)'],
     'delete_block': ['^babylon::ConcurrentVector(<|$)'],
     'delete_block_table': ['^babylon::ConcurrentVector(<|$)'],
